@@ -309,3 +309,43 @@ add(Contract(
                        ("fallback-not-reached", "_it1 < len(rules)")],
                "dec": "len(rules) - _it1"}},
 ))
+
+# ------------------------------------------------------------------ StateBlock.__init__ establishes WF and CONS (C01, C03, C17)
+add(Contract("markdown_it.main.MarkdownIt.__getitem__", inline=True, params={"self": "obj:MarkdownIt", "name": "str"}))
+add(Contract("markdown_it.ruler.Ruler.get_active_rules", params={"self": "obj:Ruler"}, result="atomlist", assume_only=True,
+             notes="list comprehension over the rule records; monitored in the C11 history check"))
+N = "len(self.src)"
+L = "len(self.bMarks)"
+CLOSED = [
+    ("lens", f"len(self.eMarks) == {L} and len(self.tShift) == {L} and len(self.sCount) == {L} and len(self.bsCount) == {L}"),
+    ("closed-WF2", f"forall(i, 0, {L}, 0 <= self.bMarks[i] and 0 <= self.tShift[i] and self.bMarks[i] + self.tShift[i] <= self.eMarks[i] and self.eMarks[i] <= {N})"),
+    ("closed-WF3", f"forall(i, 0, {L}, implies(self.eMarks[i] < {N}, self.src[self.eMarks[i]] == '\\n'))"),
+    ("closed-bs0", f"forall(i, 0, {L}, self.bsCount[i] == 0)"),
+    ("closed-CONS", f"forall(i, 0, {L}, self.sCount[i] >= 0 and self.sCount[i] == PhysCol(self.src, self.bMarks[i] + self.tShift[i]))"),
+    ("closed-linestart", f"forall(i, 0, {L}, self.bMarks[i] == 0 or self.src[self.bMarks[i] - 1] == '\\n')"),
+]
+add(Contract(
+    SB + "__init__", params={"self": "obj:StateBlock", "src": "str", "md": "obj:MarkdownIt", "env": "opaque", "tokens": "tokseq"}, props=["C01", "C03", "C17"],
+    ensures=[
+        ("WF1-len-e", f"len(self.eMarks) == {L}", ["C01", "C03"]), ("WF1-len-t", f"len(self.tShift) == {L}", ["C01"]), ("WF1-len-s", f"len(self.sCount) == {L}", ["C01"]),
+        ("WF1-len-bs", f"len(self.bsCount) == {L}", ["C01"]), ("WF1-lineMax", f"self.lineMax == {L} - 1 and {L} >= 1", ["C01", "C03"]),
+        ("WF1-sentinel", f"self.bMarks[{L} - 1] == {N} and self.eMarks[{L} - 1] == {N} and self.tShift[{L} - 1] == 0", ["C01"]),
+        ("WF2", f"forall(i, 0, {L}, 0 <= self.bMarks[i] and 0 <= self.tShift[i] and self.bMarks[i] + self.tShift[i] <= self.eMarks[i] and self.eMarks[i] <= {N})", ["C01", "C03"]),
+        ("WF3", f"forall(i, 0, {L} - 1, implies(self.eMarks[i] < {N}, self.src[self.eMarks[i]] == '\\n'))", ["C01"]),
+        ("CONS", f"forall(i, 0, {L} - 1, self.bsCount[i] == 0 and self.sCount[i] >= 0 and self.bsCount[i] + self.sCount[i] == PhysCol(self.src, self.bMarks[i] + self.tShift[i]))", ["C17", "C06"]),
+        ("fresh-context", "self.blkIndent == 0 and self.line == 0 and self.level == 0 and self.parentType == 'root' and self.src == src", ["C07", "C12"]),
+    ],
+    loops={0: {"types": {"character": "char", "pos": "int"},
+               "inv": CLOSED + [
+                   ("start-range", f"0 <= start and start <= _it0 + 1 and implies(start == _it0 + 1, _it0 == {N})"),
+                   ("start-linestart", f"start > {N} or start == 0 or self.src[start - 1] == '\\n'"),
+                   ("no-newline-open", "forall(k, start, _it0, self.src[k] != '\\n')"),
+                   ("length", f"length == {N} and self.src == src"),
+                   ("closed-before-start", f"forall(i, 0, {L}, self.eMarks[i] < start)"),
+                   ("scan-blank", "implies(not indent_found and start <= _it0, indent == _it0 - start and offset == PhysCol(self.src, _it0) and forall(k, start, _it0, self.src[k] == ' ' or self.src[k] == '\\t'))"),
+                   ("scan-found", "implies(indent_found, 0 <= indent and start + indent < _it0 and offset == PhysCol(self.src, start + indent) and "
+                                  "forall(k, start, start + indent, self.src[k] == ' ' or self.src[k] == '\\t') and not (self.src[start + indent] == ' ' or self.src[start + indent] == '\\t'))"),
+                   ("offset-nonneg", "offset >= 0 and indent >= 0"),
+                   ("it-range", f"_it0 <= {N}")],
+               "dec": f"{N} - _it0"}},
+))
